@@ -133,14 +133,15 @@ type sm struct {
 	cwInvoked, cwReturned       bool // CloseWrite called / returned
 	closeInvoked, closeReturned bool // close / reset / local close called / returned
 	closeKind                   string
+	closeInflight, cwInflight   int // calls in progress; *Returned is set when the last one has returned
 
 	eofNoClose bool   // some reader got EOF while no close had been invoked
 	eofSeq     uint64 // stamp of that first EOF return
 
 	pendingReads int
 	readSince    []time.Duration // simulated invocation time of every Read in progress
-	inflight     int // state-affecting calls on this stream in progress
-	started      int // state-affecting calls on this stream started so far
+	inflight     int             // state-affecting calls on this stream in progress
+	started      int             // state-affecting calls on this stream started so far
 
 	observed []st
 	closeCb  int
@@ -542,17 +543,30 @@ func (w *world) feedClose(s *sm, reset bool) {
 		s.closeKind = kind
 		simrt.Probe(kind + "_frame")
 	}
-	s.closeInvoked = true
 	simrt.Eventf("feed #%d %s", s.idx, kind)
+	w.doClose(s, kind, func() {
+		if reset {
+			w.mgr.HandleStreamReset(s.id, protocol.ErrConnectionTimeout)
+		} else {
+			w.mgr.HandleStreamClose(s.id)
+		}
+	})
+}
+
+// doClose runs one close/reset/local close addressed to s. Several may overlap
+// (a frame and a local close); the stream must be gone once the last of them
+// has returned, and every other stream must be untouched.
+func (w *world) doClose(s *sm, kind string, f func()) {
+	s.closeInvoked = true
+	s.closeInflight++
 	s.begin()
-	if reset {
-		w.mgr.HandleStreamReset(s.id, protocol.ErrConnectionTimeout)
-	} else {
-		w.mgr.HandleStreamClose(s.id)
-	}
-	s.closeReturned = true
+	f()
 	s.end()
-	w.checkTornDown(s, kind)
+	s.closeInflight--
+	if s.closeInflight == 0 {
+		s.closeReturned = true
+		w.checkTornDown(s, kind)
+	}
 	w.checkOthers(s, kind)
 }
 
@@ -736,10 +750,14 @@ func (w *world) writer(s *sm, k int) {
 		case 3, 4:
 			simrt.Eventf("closewrite #%d %s", s.idx, who)
 			s.cwInvoked = true
+			s.cwInflight++
 			s.begin()
 			s.st.CloseWrite()
-			s.cwReturned = true
 			s.end()
+			s.cwInflight--
+			if s.cwInflight == 0 {
+				s.cwReturned = true
+			}
 			simrt.Probe("close_write")
 		case 5:
 			// "reads continue": the stream's own read gate stays open until the
@@ -765,14 +783,8 @@ func (w *world) writer(s *sm, k int) {
 				s.closeKind = "local close"
 				simrt.Probe("local_close")
 			}
-			s.closeInvoked = true
 			simrt.Eventf("remove #%d %s", s.idx, who)
-			s.begin()
-			w.mgr.RemoveStream(s.id)
-			s.closeReturned = true
-			s.end()
-			w.checkTornDown(s, "local close")
-			w.checkOthers(s, "local close")
+			w.doClose(s, "local close", func() { w.mgr.RemoveStream(s.id) })
 		default:
 			w.tryWrite(s, who)
 		}
